@@ -204,3 +204,29 @@ def reference_dimension(crystal, order, near=None, ops=None, tol=1e-8):
     full = np.zeros((size, W.shape[1]))
     full[cols] = W
     return W.shape[1], full
+
+
+def ppqq_mask(N, order=4):
+    """elements (i1 a1, .., i4 a4) whose four (atom, cart) pairs form the pattern two distinct pairs, each twice"""
+    shape = tensor_shape(N, order)
+    mask = np.zeros(shape, dtype=bool)
+    pairs = [(i, a) for i in range(N) for a in range(3)]
+    for p in pairs:
+        for q in pairs:
+            if p == q:
+                continue
+            for arr in set(itertools.permutations([p, p, q, q])):
+                idx = tuple(x[0] for x in arr) + tuple(x[1] for x in arr)
+                mask[idx] = True
+    return mask.reshape(-1)
+
+
+def restrict_zero(W, mask, tol=1e-9):
+    """orthonormal basis of range(W) ∩ {x : x[mask] = 0}"""
+    if W.shape[1] == 0:
+        return W
+    A = W[mask]
+    u, sv, vt = np.linalg.svd(A, full_matrices=True)
+    rank = int((sv > tol * max(1.0, sv.max() if len(sv) else 1.0)).sum())
+    null = vt[rank:].T
+    return W @ null
